@@ -1,13 +1,15 @@
 from vlib.core import Job
 
-def K(fn, entry, props):
-    return Job(name="callee/" + fn, props=props, src="callee.c", entry=entry, enforce=fn, functions=[fn], unwind=10)
+def K(fn, entry, props, sfx="", **kw):
+    return Job(name="callee/" + fn + sfx, props=props, src="callee.c", entry=entry, enforce=fn, functions=[fn], unwind=10, **kw)
 
-ALLP = ["C02", "C03", "C13", "C16"]
+ALLP = ["C02", "C03", "C13", "C14", "C16"]
 JOBS = [
     K("varintTaggedPut64", "H_cPut64", ALLP),
+    K("varintTaggedPut64", "H_cPut64", ALLP, "/sumframe", defines=["CALLEE_TAG_FRAME_SUM=1"]),
     K("varintTaggedLen", "H_cLen", ALLP),
     K("varintTaggedGet64", "H_cGet64", ALLP),
+    K("varintTaggedGet", "H_cTaggedGet", ["C14"]),
     K("varintExternalPutFixedWidth", "H_cExtPut", ALLP),
     K("varintExternalGet", "H_cExtGet", ALLP),
 ]
